@@ -16,9 +16,9 @@ RULE = ("documents are built by independent serialisers from generated timestamp
         "ignore_timing_errors, lang); DFXP clock time with 0-9 fraction digits or :FF frames, "
         "offset times n[.d](h|m|s|ms|f), begin+end and begin+dur, empty <p>, 1-2 divs; SAMI "
         "syncs in 1-3 languages with ends given by blank P or the next cue, quoted/unquoted, "
-        "upper/lower case; MicroDVD with/without {0}{0}fps header. Expected instants come from "
+        "upper/lower case; MicroDVD with/without {0}{0}fps header (any decimal rate 1-120 with 0-3 fraction digits; frames biased to those falling on whole microseconds). Expected instants come from "
         "exact Fraction arithmetic on the spelling. Exhaustive legs: MicroDVD frames 0..2.16M "
-        "at 25 fps and 0..500k at 7 declared rates, all SS:FF pairs, offsets k/1000 s for "
+        "at 25 fps and 0..500k at 10 declared rates (incl. 23.98, whose binary float is not the decimal), all SS:FF pairs, offsets k/1000 s for "
         "k<1e5. Non-trivial: a stamp with hours != 0, a fraction that is not three digits, "
         "frames, an offset metric, begin+dur, a shift != 0, an fps header, or an empty cue. "
         'In a quarter of the cases the reader object has already read another document of the '
@@ -331,7 +331,15 @@ def check_sami(case, rec):
 
 # ------------------------------------------------------------------ MicroDVD
 
-FPS_LIST = ["23.976", "24", "25", "29.97", "30", "50", "59.94"]
+FPS_LIST = ["23.976", "24", "25", "29.97", "30", "50", "59.94", "23.98", "14.985", "119.88"]
+
+
+def _exact_step(fps_text):
+    """Frames that are multiples of this step fall on a whole number of microseconds (the
+    places where an inexact rate, e.g. the binary float of the decimal, shows)."""
+    import math
+    f = Fraction(fps_text)
+    return f.numerator // math.gcd(f.numerator, 10 ** 6 * f.denominator)
 
 
 def microdvd_strategy(tier):
@@ -339,10 +347,18 @@ def microdvd_strategy(tier):
     def build(draw):
         fps = draw(st.one_of(st.none(), st.none(), st.sampled_from(FPS_LIST),
                              st.builds(lambda a, b: f"{a}.{b}" if b else str(a), st.integers(1, 120),
-                                       st.sampled_from(["", "5", "25", "976", "001", "0", "000"]))))
+                                       st.sampled_from(["", "5", "25", "976", "001", "0", "000"])),
+                             st.builds(lambda a, b: f"{a}.{b}", st.integers(1, 120),
+                                       st.integers(1, 999).map(str)),
+                             st.builds(lambda a, b: f"{a}.{b:03d}", st.integers(1, 120),
+                                       st.integers(1, 999))))
         n = draw(st.integers(1, 8))
         maxf = int(999 * 3600 * 24)
-        fr = sorted(draw(st.lists(st.one_of(st.integers(0, maxf), st.integers(0, 100000),
+        step = _exact_step(fps or "25")
+        exact = st.builds(lambda k, d: max(0, k * step + d), st.integers(0, max(1, maxf // step)),
+                          st.sampled_from([-1, 0, 0, 0, 1]))
+        exact_small = st.builds(lambda k: k * step, st.integers(0, max(1, min(maxf, 10 ** 6) // step)))
+        fr = sorted(draw(st.lists(st.one_of(st.integers(0, maxf), st.integers(0, 100000), exact, exact_small,
                                             st.sampled_from([0, 1, 24, 25, 201, 1500, 90000])),
                                   min_size=2 * n, max_size=2 * n)))
         cues = [{"a": fr[2 * i], "b": fr[2 * i + 1], "empty": draw(st.integers(0, 7)) == 0}
